@@ -2,6 +2,7 @@ import Ecal.Lemmas.EvalHeap
 import Ecal.Lemmas.EvalPaths
 import Ecal.Lemmas.EvalWF
 import Ecal.Lemmas.EvalPres
+import Ecal.Lemmas.EvalCalm
 import Ecal.Lemmas.EvalFrame
 import Ecal.Lemmas.EvalLists
 import Ecal.Lemmas.EvalNew
@@ -21,6 +22,7 @@ Proved: lookup_nearest, assign_nearest_or_local, let_local, inner_not_visible_ou
 closure_sees_definition_scope, call_does_not_write_enclosing_frames, args_missing_default_extra_ignored,
 prims_by_value_containers_by_ref, read_after_write (cell) and read_after_write_path (setValue / getValue), 
 call_preserves_wf (+ _noDefaults), call_frame_invisible_noDefaults, writes_preserve_wf, control_flow_preserves_invariants,
+eval_preserves_wf_calm (eval itself, call-free fragment),
 new_has_all_template_props (transitive), own_property_wins, method_this, init_once_with_args,
 init_once_with_args_and_supers, init_reads_super, addSuperClasses_cycle.  Hypotheses are listed with each theorem.
 -/
@@ -427,6 +429,45 @@ example (sc : Nat) (a b : List Nat) (x y : Val) :
     Pres.bind _ _ _ (fun s r s' h hr => (setValue_wf sc b y s s' r h hr).1) (fun _ => Pres.pure _ _)
   refine (control_flow_preserves_invariants ScopesWF).2.2.2.2.2.1 _ _ ?_ (fun f hf => by injection hf with hf; rw [← hf]; exact hs)
   exact (control_flow_preserves_invariants ScopesWF).2.2.2.2.1 _ [] none hl (fun h hm => by cases hm) (fun o ho => by cases ho)
+
+/-- **The evaluator itself preserves `ScopesWF` on the call-free, declaration-free fragment `Calm`** — constants,
+    numbers, plain variable reads, `let v`, statement sequences, guards and `if … elif … else`, nested arbitrarily:
+    for every fuel, every tree of the fragment, every existing scope `sc` and EVERY outcome (errors, fuel, malformed
+    children included), `eval f sc n` leaves a well-formed scope table in which `sc` still exists.  One induction over
+    the fuel of the mutual `eval`; the `if` goes through `control_flow_preserves_invariants` (`ifChain`) and
+    `block_scope_under_current` (`newChild`), the leaves through `writes_preserve_wf` and read lemmas.  Not in the
+    fragment (open): assignments `:=`, loops, `try`, calls, declarations, access paths. -/
+theorem eval_preserves_wf_calm (f : Nat) (n : Ecal.Parse.Node) (sc : Nat) (st st' : St) (r : Except Sig Val)
+    (hn : Calm n) (h : ScopesWF st) (hsc : sc < st.scopes.size) (hr : runM (eval f sc n) st = (r, st')) :
+    ScopesWF st' ∧ sc < st'.scopes.size := by
+  have := eval_calm_preserves f n [sc] sc hn (by simp) st r st' ⟨h, fun i hi => by simp at hi; rw [hi]; exact hsc⟩ hr
+  exact ⟨this.1, this.2 sc (by simp)⟩
+
+/-- non-vacuity: `if true { let a }` is in the fragment -/
+def exIfLet : Ecal.Parse.Node :=
+  nd "if" [] [some (nd "guard" [] [some (nd "true" [] [])]), some (nd "statements" [] [some (nd "let" [] [some (nd "identifier" [97] [])])])]
+theorem exIfLet_calm : Calm exIfLet := by
+  have hvar : Calm (nd "identifier" [97] []) := Calm.var _ _ [97] rfl rfl rfl (by decide)
+  have hlet : Calm (nd "let" [] [some (nd "identifier" [97] [])]) := Calm.letv _ _ rfl rfl rfl hvar
+  have hseq : Calm (nd "statements" [] [some (nd "let" [] [some (nd "identifier" [97] [])])]) := by
+    refine Calm.seq _ rfl ?_
+    intro c hc
+    simp [nd, Ecal.Parse.Node.children] at hc
+    rw [hc]; exact hlet
+  have hguard : Calm (nd "guard" [] [some (nd "true" [] [])]) := by
+    refine Calm.guard _ rfl ?_
+    intro c hc
+    simp [nd, Ecal.Parse.Node.children] at hc
+    rw [← hc]; exact Calm.const _ (Or.inl rfl)
+  refine Calm.ifn _ rfl ?_
+  intro c hc
+  simp [exIfLet, nd, Ecal.Parse.Node.children] at hc
+  rcases hc with e | e
+  · rw [e]; exact hguard
+  · rw [e]; exact hseq
+
+example (st' : St) (r : Except Sig Val) (hr : runM (eval 50 1 exIfLet) exSt = (r, st')) : ScopesWF st' ∧ 1 < st'.scopes.size :=
+  eval_preserves_wf_calm 50 exIfLet 1 exSt st' r exIfLet_calm exSt_wf (by decide) hr
 
 /-- Variable writes keep the table well-formed for EVERY name and EVERY outcome: `setValue` (plain names write one
     variable, dotted names only the heap) and `setLocalValue` (the `let` node); together with the initial table, new
